@@ -70,7 +70,7 @@ fn check_day(ctx: &Ctx, civ: &Civil, ord: usize, first_term_day: usize, loc: &mu
     }
   }
   // two more public routes to the pillar, on every fifth date
-  if ord >= first_term_day && ord % 5 == 0 {
+  if ord >= first_term_day && (ord % 5 == 0 || (d.0 == 1582 && (d.1 == 10 || d.1 == 9))) {
     loc.transitions += 2;
     let r = guard(|| {
       let sd = mk(d);
@@ -95,6 +95,35 @@ fn check_day(ctx: &Ctx, civ: &Civil, ord: usize, first_term_day: usize, loc: &mu
           stepped = format!("next({}): sexagenary-day view {} / lunar-day pillar {} on {}; model {} on {}", dn, v1, v2, fmt_ymd(sd2), wp, fmt_ymd(civ.date(o2 as usize)));
         }
       }
+      // an hour of this lunar day stepped over midnight: the lunar day it belongs to carries the neighbour's pillar
+      if ord > 400 && ord + 400 < civ.len() {
+        for (hh, dn) in [(22usize, 1i64), (1, -1)] {
+          let h = tyme4rs::tyme::lunar::LunarHour::from_ymd_hms(ld.get_year(), ld.get_month(), ld.get_day(), hh, 0, 0).next(dn as isize);
+          let o2 = (ord as i64 + dn) as usize;
+          let wp = pillar_name(day_pillar(civ.jdn(o2)));
+          let got = h.get_lunar_day().get_sixty_cycle().get_name();
+          if got != wp {
+            stepped_to = civ.date(o2);
+            stepped = format!("LunarHour {}:00 .next({}) .get_lunar_day(): pillar {}; model {} on {}", hh, dn, got, wp, fmt_ymd(civ.date(o2)));
+          }
+        }
+      }
+      // the sexagenary-day view itself stepped by n days: pillar and civil date of the neighbour (also across the 1582 gap)
+      if ord > 400 {
+        let scd = sd.get_sixty_cycle_day();
+        for dn in [1i64, -1, 14, -14, 30] {
+          let o2 = ord as i64 + dn;
+          if o2 < 400 || o2 as usize >= civ.len() - 400 {
+            continue;
+          }
+          let n = scd.next(dn as isize);
+          let wp = pillar_name(day_pillar(civ.jdn(o2 as usize)));
+          if n.get_sixty_cycle().get_name() != wp || ymd_of(&n.get_solar_day()) != civ.date(o2 as usize) {
+            stepped_to = civ.date(o2 as usize);
+            stepped = format!("SixtyCycleDay.next({}): pillar {} on {}; model {} on {}", dn, n.get_sixty_cycle().get_name(), n.get_solar_day(), wp, fmt_ymd(civ.date(o2 as usize)));
+          }
+        }
+      }
       (SixtyCycleDay::from_solar_day(sd).get_sixty_cycle().get_name(), sd.get_lunar_day().get_sixty_cycle_day().get_sixty_cycle().get_name(), ymd_of(&sd.get_sixty_cycle_day().get_solar_day()), stepped, stepped_to)
     });
     match r {
@@ -102,7 +131,7 @@ fn check_day(ctx: &Ctx, civ: &Civil, ord: usize, first_term_day: usize, loc: &mu
         if !stepped.is_empty() {
           // keyed by the start date when the start itself is already reported as wrong, else by the date reached
           let key = if start_bad { format!("{} stepped", fmt_ymd(d)) } else { format!("{} reached from {}", fmt_ymd(stepped_to), fmt_ymd(d)) };
-          ctx.violation("pillar_route", key, format!("lunar day with filled views, {}", stepped), vec!["day".to_string(), d.0.to_string(), d.1.to_string(), d.2.to_string()]);
+          ctx.violation("pillar_route", key, format!("stepped value: {}", stepped), vec!["day".to_string(), d.0.to_string(), d.1.to_string(), d.2.to_string()]);
         }
         if a != want_p || b != want_p || back != d {
           ctx.violation("pillar_route", fmt_ymd(d), format!("SixtyCycleDay::from_solar_day = {}, LunarDay::get_sixty_cycle_day = {}, SixtyCycleDay::get_solar_day = {}; model {} on {}", a, b, fmt_ymd(back), want_p, fmt_ymd(d)), vec!["day".to_string(), d.0.to_string(), d.1.to_string(), d.2.to_string()]);
